@@ -13,6 +13,7 @@
 //!   streams (L (L path (N kind) (N announced) (L chunk...))...)   handlers whose reply carries a future:
 //!            kind 0 = `kvarn::extensions::stream_body()` (the file public/<path>), kind 1 = `with_future` (no
 //!            length; the future writes the chunks), kind 2 = `with_future_and_len(.., announced)`
+//!   sndbuf  (N bytes) send buffer of the server's end of the connection (0 = the kernel's choice)
 //!   retry   (N 0|1)   run the scenario again (fresh host, up to 3 attempts) when the client ran into a time-out
 //! req      = (L method target (L (L name value)...) body (N early) (N flags))     flags bit 0: unknown Host,
 //!            bit 1: shut down the client's write side after this request's bytes, bit 2: request line says
@@ -285,11 +286,69 @@ fn claim_port() -> Option<PortClaim> {
     None
 }
 
-async fn open_direct(hosts: Arc<HostCollection>) -> std::io::Result<tokio::net::TcpStream> {
-    let listener = tokio::net::TcpListener::bind("127.0.0.1:0").await?;
+/// One listening socket per process and send-buffer size: every case takes one more ephemeral port (its client's), not two.
+/// `sndbuf` > 0: the server's end of the connection gets a send buffer of that size (inherited from the listening
+/// socket, and no longer tuned by the kernel), so that a body of some ten kilobytes does not fit a single `write`.
+fn listener(sndbuf: u32) -> std::io::Result<&'static tokio::net::TcpListener> {
+    static PLAIN: OnceLock<tokio::net::TcpListener> = OnceLock::new();
+    static SMALL: OnceLock<tokio::net::TcpListener> = OnceLock::new();
+    let cell = if sndbuf > 0 { &SMALL } else { &PLAIN };
+    if let Some(l) = cell.get() {
+        return Ok(l);
+    }
+    let mut last = std::io::Error::from(std::io::ErrorKind::Other);
+    for _ in 0..50 {
+        let made = (|| {
+            let socket = tokio::net::TcpSocket::new_v4()?;
+            socket.set_reuseaddr(true)?;
+            if sndbuf > 0 {
+                socket.set_send_buffer_size(sndbuf)?;
+            }
+            socket.bind(std::net::SocketAddr::from(([127, 0, 0, 1], 0)))?;
+            socket.listen(16)
+        })();
+        match made {
+            Ok(l) => return Ok(cell.get_or_init(|| l)),
+            Err(e) => {
+                last = e;
+                std::thread::sleep(Duration::from_millis(100));
+            }
+        }
+    }
+    Err(last)
+}
+
+async fn open_direct(hosts: Arc<HostCollection>, sndbuf: u32) -> std::io::Result<tokio::net::TcpStream> {
+    let listener = listener(sndbuf)?;
     let addr = listener.local_addr()?;
-    let client = tokio::net::TcpStream::connect(addr).await?;
-    let (server_end, peer) = listener.accept().await?;
+    // the machine is shared: when it runs out of ephemeral ports for a moment, wait
+    let mut client = None;
+    let mut last = std::io::Error::from(std::io::ErrorKind::Other);
+    for _ in 0..50 {
+        match tokio::net::TcpStream::connect(addr).await {
+            Ok(c) => {
+                client = Some(c);
+                break;
+            }
+            Err(e) => {
+                last = e;
+                tokio::time::sleep(Duration::from_millis(100)).await;
+            }
+        }
+    }
+    let client = match client {
+        Some(c) => c,
+        None => return Err(last),
+    };
+    let me = client.local_addr()?;
+    let (server_end, peer) = loop {
+        let (s, peer) = tokio::time::timeout(Duration::from_secs(10), listener.accept())
+            .await
+            .map_err(|_| std::io::Error::from(std::io::ErrorKind::TimedOut))??;
+        if peer == me {
+            break (s, peer);
+        }
+    };
     let desc = Arc::new(PortDescriptor::unsecure(8080, hosts));
     tokio::spawn(async move {
         let _ = kvarn::handle_connection(kvarn::Incoming::Tcp(server_end), peer, desc, || true).await;
@@ -319,7 +378,7 @@ struct Ran {
     slow: bool,
 }
 
-async fn run(built: &c00pipe::Built, reqs: &[Req], server: bool, wait_close: u64, late_ms: u64) -> Option<Ran> {
+async fn run(built: &c00pipe::Built, reqs: &[Req], server: bool, wait_close: u64, late_ms: u64, sndbuf: u32) -> Option<Ran> {
     let mut manager = None;
     let mut _claim = None;
     let stream = if server {
@@ -328,7 +387,7 @@ async fn run(built: &c00pipe::Built, reqs: &[Req], server: bool, wait_close: u64
         _claim = Some(c);
         s
     } else {
-        open_direct(Arc::clone(&built.hosts)).await.ok()?
+        open_direct(Arc::clone(&built.hosts), sndbuf).await.ok()?
     };
     let _ = stream.set_nodelay(true);
     let t0 = std::time::SystemTime::now().duration_since(std::time::UNIX_EPOCH).unwrap().as_secs();
@@ -470,6 +529,7 @@ fn conn(x: &X, late_ms: u64) -> X {
     let server = flagn("server") == 1;
     let retry = flagn("retry") == 1;
     let wait_close = flagn("wait_close") as u64;
+    let sndbuf = flagn("sndbuf") as u32;
     let mut res = None;
     let mut attempts = 0u32;
     for _ in 0..3 {
@@ -479,7 +539,7 @@ fn conn(x: &X, late_ms: u64) -> X {
             None => return X::bad(),
         };
         attempts += 1;
-        let r = rt().block_on(run(&built, &reqs, server, wait_close, late_ms));
+        let r = rt().block_on(run(&built, &reqs, server, wait_close, late_ms, sndbuf));
         if let Some(d) = &built.dir {
             let _ = std::fs::remove_dir_all(d);
         }
